@@ -2,6 +2,8 @@
 //! validates against the TLA+ specifications in /verif/spec. See /verif/DESIGN.md.
 use kvc::util::Opts;
 mod c04;
+mod c05;
+mod c06;
 mod c07;
 mod world;
 
@@ -14,6 +16,9 @@ fn main() {
     let opts = Opts::parse(&args[2..]);
     let rc = match args[1].as_str() {
         "c04" => c04::run(&opts),
+        "c05" => c05::run(&opts),
+        "c06" => c06::run(&opts),
+        "crash-child" => c05::child(&opts),
         "c07" => c07::run(&opts),
         other => {
             eprintln!("unknown subcommand {other}");
